@@ -14,8 +14,8 @@ RULE = ('CTC matrices as in C02 (T 1-8, C 3-5) x history-dependent LMs (toy LM w
 ASSUMPTIONS = ['LM scores are compared within 1e-8 (float64 LMs)', 'ties of the final arg-max (two best totals within 1e-9) are skipped as ambiguous',
                'the "LM state returned" is compared with the state after the arg-max transcript from the same start state']
 N = {'quick': 1600, 'thorough': 60000}
-CLASSES = ['hash', 'hash', 'hash_init', 'hash_scale0', 'torch', 'hash_eos', 'hash', 'torch_init']
-REQUIRED = ['lm_scores_checked', 'best_checked', 'scale0_checked', 'confidence_checked', 'state_checked', 'beam_compared', 'torch_cases', 'nonunit_scale_best_checked']
+CLASSES = ['hash', 'hash', 'hash_init', 'hash_scale0', 'torch', 'hash_eos', 'hash', 'torch_init', 'hash_sequence', 'torch_sequence']
+REQUIRED = ['sequence_calls_checked', 'lm_scores_checked', 'best_checked', 'scale0_checked', 'confidence_checked', 'state_checked', 'beam_compared', 'torch_cases', 'nonunit_scale_best_checked']
 SHARDS = {'quick': 8, 'thorough': 16}
 
 
@@ -76,6 +76,8 @@ def check(case, mon, ctx):
 
         def score(prefix, with_eos):
             return lm.score(prefix, h0=h0v, eos=with_eos)
+    if case['cls'].endswith('_sequence'):
+        return check_sequence(case, mon, ctx, lm, letters, is_torch)
     sel = None if case['default_selector'] else nonpruning
     kw = {} if sel is None else {'relevant_logits_selector': sel}
     dec = D.CTCPrefixLogRawNumpyDecoder(letters + [D.BLANK_SYMBOL], k=k, lm=lm, lm_scale=scale, insertion_bonus=bonus, **kw)
@@ -157,3 +159,39 @@ def check(case, mon, ctx):
 def _beam_tie(lp, k, dsel):
     selector = (lambda row, c: row[c] > -10) if dsel else (lambda row, c: row[c] > -np.inf)
     return ctc.ref_beam(lp, k, selector)[1]
+
+
+def check_sequence(case, mon, ctx, lm, letters, is_torch):
+    """one long-lived decoder (and LM wrapper) decodes several lines in a row; every call must give what a freshly built decoder + LM gives for that line alone"""
+    D, torch = ctx.D, ctx.torch
+    rng = np.random.default_rng(case['lm_seed'])
+    C = len(letters) + 1
+    mats = [case['lp']] + [make_matrix(rng, str(rng.choice(['rand', 'peaky', 'zeros', 'repeats'])), int(rng.integers(1, 8)), C) for _ in range(2)]
+    mats.append(case['lp'])
+    k, scale, bonus, eos = case['k'], case['scale'], case['bonus'], case['eos']
+    dec = D.CTCPrefixLogRawNumpyDecoder(letters + [D.BLANK_SYMBOL], k=k, lm=lm, lm_scale=scale, insertion_bonus=bonus)
+
+    def fresh():
+        if is_torch:
+            raw = ctx.stubs.make_lstm_lm(letters, case['lm_seed'], dim=int(8 + case['lm_seed'] % 9))
+            l2 = ctx.LMWrapper(raw, letters, torch.device('cpu'))
+        else:
+            l2 = ctx.stubs.HashLM(C - 1, case['lm_seed'])
+        return D.CTCPrefixLogRawNumpyDecoder(letters + [D.BLANK_SYMBOL], k=k, lm=l2, lm_scale=scale, insertion_bonus=bonus)
+
+    def summary(boh, h):
+        hy = sorted((x.transcript, round(float(x.vis_sc), 9), round(float(x.lm_sc), 7)) for x in boh)
+        if is_torch:
+            hs = [np.round(t.detach().numpy(), 6).tolist() for t in h.prepare_for_torch()]
+        else:
+            hs = np.asarray(h).reshape(-1).tolist()
+        return hy, hs
+    for n, lp in enumerate(mats):
+        got = summary(*dec(lp.copy(), model_eos=eos, return_h=True))
+        exp = summary(*fresh()(lp.copy(), model_eos=eos, return_h=True))
+        mon.count('sequence_calls_checked')
+        if got != exp:
+            mon.violation('lm-score-is-the-models-own', {'note': 'a decoder that has decoded other lines before gives a different bag / state than a fresh one (no initial state supplied)',
+                          'call_index': n, 'long_lived': got[0][:4], 'fresh': exp[0][:4], 'state_differs': got[1] != exp[1]})
+            break
+    mon.mark_nontrivial()
